@@ -80,8 +80,7 @@ Walk(ops, sts, ks, j, acc) ==
            noop   == after = before
            info   == [noop   |-> noop,
                       k      |-> Cardinality({i \in 1..j : ops[i] = ops[j]}),
-                      probes |-> IF noop /\ j > 1 THEN <<>> ELSE [i \in 1..Len(ks) |-> Probe(after, ks[i])],   \* <<>>: as after the previous load
-                      fa     |-> FootprintA(after)]
+                      probes |-> IF noop /\ j > 1 THEN <<>> ELSE [i \in 1..Len(ks) |-> Probe(after, ks[i])]]   \* <<>>: as after the previous load
        IN Walk(ops, sts, ks, j + 1, Append(acc, info))
 Steps(s, ops) == Walk(ops, StatesOf(ops), ProbeSeq(s), 1, <<>>)
 
@@ -105,7 +104,6 @@ Laws ==
           text   == Text(op.code)
       IN (* (A) idempotence: loading the same text by the same source again changes nothing *)
          /\ Do(after, op) = after
-         /\ FootprintA(Do(after, op)) = FootprintA(after)
          (* replacement: a predicate the text defines holds, for this owner, exactly the clauses of the text *)
          /\ \A K \in DefKeys(text) : OwnedBy(after, o, K) = Tagged(text, K, o)
          /\ \A K \in DefKeys(text) \ after.multi : after.cl[K] = Tagged(text, K, o)
@@ -114,7 +112,8 @@ Laws ==
          (* independence: clauses of other owners are untouched, except that a non-multifile predicate is redefined as a whole *)
          /\ \A K \in AllKeys : (K \notin DefKeys(text) \/ K \in after.multi) =>
                 SelectSeq(after.cl[K], LAMBDA c : c.own # o) = SelectSeq(before.cl[K], LAMBDA c : c.own # o)
-         (* nothing is ever forgotten by the tables that only grow *)
+         (* nothing is ever forgotten by the tables that only grow; the abstract footprint of a reload is that of the load *)
+         /\ (after = before) => FootprintA(after) = FootprintA(before)
          /\ before.seen \subseteq after.seen /\ before.dyn \subseteq after.dyn /\ before.multi \subseteq after.multi
 
 Emit ==
